@@ -56,7 +56,7 @@ def scan_loop_rules(R, oid):
                     for t2 in pr.cfg.nodes:
                         if t2.kind == 'test' and isinstance(t2.ast, ast.Compare) and len(t2.ast.ops) == 1 and t2.id in after:
                             sides2 = [t2.ast.left, t2.ast.comparators[0]]
-                            if any(full_text(pr, a_) == nfields0 and isinstance(b_, ast.Name) and full_text(pr, b_) != nfields0
+                            if any(full_text(pr, a_) == nfields0 and isinstance(b_, ast.Name) and b_.id == idx and full_text(pr, b_) != nfields0
                                    for (a_, b_) in (sides2, sides2[::-1])):
                                 exhausted_bad = True
     if exhausted_bad and len(eqs) == 1:
@@ -153,7 +153,7 @@ def scan_loop_rules(R, oid):
         else:
             R.ok(oid, inst, site(pr, advs[-1].ast))
     else:
-        R.fail(oid, inst, PARSE, 'def parse', 'scan loop shape not recognised', site(pr, pr.f.node))
+        R.defer('TlvModel.parse: scan loop shape not recognised (' + oid + ' cannot be read)')
     # the scan stops only when the buffer is exhausted: elements behind the last declared field are still examined
     inst = PARSE + ' :: the scan ends only at the end of the buffer'
     if len(loopt) == 1:
@@ -165,7 +165,7 @@ def scan_loop_rules(R, oid):
         else:
             R.ok(oid, inst, site(pr, loopt[0].ast))
     else:
-        R.fail(oid, inst, PARSE, 'def parse', 'scan loop shape not recognised', site(pr, pr.f.node))
+        R.defer('TlvModel.parse: scan loop shape not recognised (' + oid + ' cannot be read)')
 
 
 def map_value_rule(R, oid):
@@ -621,8 +621,32 @@ def run(R):
     adds = [n for n in pr.cfg.nodes if n.kind == 'stmt' and isinstance(n.ast, ast.AugAssign) and ast.unparse(n.ast.target) == 'offset'
             and isinstance(n.ast.op, ast.Add) and isinstance(n.ast.value, ast.Name) and n.ast.value.id in tl_sizes]
     lt = [t for t in pr.cfg.nodes if t.kind == 'test' and cmp_sides(t.ast) == ('offset', ast.Lt, 'len(wire)')]
+    if not lt:
+        # the buffer size hoisted into a local (`n = len(wire); while offset < n`)
+        lt = [t for t in pr.cfg.nodes if t.kind == 'test' and isinstance(t.ast, ast.Compare) and len(t.ast.ops) == 1 and isinstance(t.ast.ops[0], ast.Lt)
+              and ast.unparse(t.ast.left) == 'offset' and full_text(pr, t.ast.comparators[0]) == 'len(wire)']
+    # an advance of the cursor by (at least) the size of a number just read, in either spelling: `offset += sz`, or `offset = <copy of offset
+    # advanced by sz> + sz2` (the reads moved into a helper that works on its own cursor)
+    def _advances(n_):
+        if n_.kind != 'stmt' or not isinstance(n_.ast, ast.Assign) or len(n_.ast.targets) != 1 or ast.unparse(n_.ast.targets[0]) != 'offset':
+            return False
+        v_ = n_.ast.value
+        if not (isinstance(v_, ast.BinOp) and isinstance(v_.op, ast.Add)):
+            return False
+        names_ = [x for x in (v_.left, v_.right) if isinstance(x, ast.Name)]
+        sz_ = [x for x in names_ if x.id in tl_sizes]
+        base_ = [x for x in names_ if x.id not in tl_sizes]
+        if len(sz_) != 1 or len(base_) != 1:
+            return False
+        # the base is the cursor itself or a copy of it (possibly advanced already)
+        return any(s_.kind == 'expr' and ast.unparse(s_.expr) == 'offset' or s_.kind == 'aug' for s_ in pr.sources(n_, base_[0])) or base_[0].id == 'offset'
+    adds2 = [n for n in pr.cfg.nodes if _advances(n)]
     if len(lt) == 1 and len(adds) >= 2 and lt[0].id not in reach_from_succ(pr.cfg, lt[0], True, removed_nodes={adds[0].id}, follow_exc=False):
         R.ok('C07.LOP.1', inst, site(pr, adds[0].ast), 'size_typ in {1,3,5,9}')
+    elif len(lt) == 1 and adds2 and lt[0].id not in reach_from_succ(pr.cfg, lt[0], True, removed_nodes={n.id for n in adds2}, follow_exc=False):
+        R.ok('C07.LOP.1', inst, site(pr, adds2[0].ast), 'cursor advanced by the sizes read (through a copy)')
+    elif not lt or not (adds or adds2):
+        R.defer('TlvModel.parse: the loop test on the cursor / the advance by the sizes read was not found in a readable form (C07.LOP.1 undecided)')
     else:
         R.fail('C07.LOP.1', inst, PARSE, lt[0].ast if lt else 'def parse', 'an iteration of the scan loop may not consume the Type/Length it read', site(pr, pr.f.node))
     R.assumptions += ['"every extracted field equals a strict reading" (value equality) is not decided',
